@@ -842,7 +842,7 @@ def search_oneshot(run):
 
 PROPS['C08'] = {
     'modules': ['IpcModel.Props.C08'],
-    'theorems': ['C08.C08_first', 'C08.C08_orders', 'C08.C08_clean_accept', 'C08.C08_clean_drop', 'C08.C08_clean_failed_new', 'C08.C08_distinct', 'C08.C08_shape', 'C08.C08_inproc_registry', 'InprocReg.inv_run',
+    'theorems': ['C08.C08_first', 'C08.C08_orders', 'C08.C08_clean_accept', 'C08.C08_clean_drop', 'C08.C08_clean_failed_new', 'C08.C08_distinct', 'C08.C08_shape', 'C08.C08_inproc_registry', 'InprocReg.inv_run', 'C08.C08_accept_survives_signals',
                  'OneShot.conn_step', 'OneShot.names_step'],
     'scenarios': plus(oneshot_scen(600, 12000), lambda tier, seed: [{'build': b, 'args': ['oneshotip', '--seed', str(seed), '--n', str(600 if tier == 'thorough' else 60), '--tier', tier]} for b in ('default', 'force-inprocess')]),
     'builds': ['default', 'force-inprocess'],
